@@ -39,6 +39,7 @@
 EXTENDS Integers, Sequences, FiniteSets, TLC, Json, BuiltinsTable, VariablesTable
 
 CONSTANTS Mode, MaxReq
+EsiLen == IF MaxReq >= 3 THEN 5 ELSE 4       \* documents of up to 4 tokens (quick), 5 (thorough; MaxReq doubles as the tier switch)
 
 -----------------------------------------------------------------------------
 (* assignment cells *)
@@ -196,7 +197,8 @@ RequestCells == { [k |-> "request", method |-> m, path |-> p, query |-> q, heade
 (* unconditionally from each lifecycle scope - only the restart bound can end such a request.  The interpreter has   *)
 (* two copies of the statement dispatch (ProcessBlockStatement, ProcessFunctionSubroutine) that must agree.           *)
 JumpCells == { [k |-> "jump", jstmt |-> st, nest |-> n, callkind |-> c, scope |-> sc, nreq |-> 3]
-                 : st \in {"restart_stmt", "restart_ret", "error_stmt", "error_ret", "action_ret"}, n \in {"top", "if", "switch", "block"},
+                 : st \in {"restart_stmt", "restart_ret", "error_stmt", "error_ret", "action_ret", "synthetic_stmt", "synthetic64_stmt", "esi_stmt"},
+                   n \in {"top", "if", "switch", "block"},
                    c \in {"plain", "fcall", "fexpr"}, sc \in {"recv", "hit", "miss", "pass", "fetch", "error", "deliver"} }
 MaxRestarts == 3
 \* requirement besides value-or-error: however the restart is written, a request is restarted at most MaxRestarts times
@@ -208,9 +210,56 @@ InitErrClasses == {"dup-sub", "dup-table", "dup-acl", "dup-backend", "dup-direct
 InitErrCells == { [k |-> "initerr", class |-> cl, nreq |-> n] : cl \in InitErrClasses, n \in 2..3 }
 
 (* director declarations with boundary weights / quorum / retries, selected as the backend of a passed request *)
-DirectorCells == { [k |-> "director", dtype |-> t, weight |-> w, quorum |-> q, retries |-> r, nreq |-> 2]
-                     : t \in {"random", "fallback", "hash", "client", "chash"}, w \in {"1", "-1", "500", "501", "1000", "1001", "MAX"},
-                       q \in {"-1", "0", "50", "100", "101"}, r \in {"-1", "0", "1", "MAX"} }
+DirTypes == {"random", "fallback", "hash", "client", "chash"}
+\* route: the scope in which `set req.backend = <target>;` is executed (every scope where req.backend is writable, incl.
+\* AFTER the backend request was prepared: miss, pass) and how the request goes on to a real fetch; target: a director
+\* of each type, a director whose member is another director ("<type>-of-director"), or the plain second backend.
+\* Each cell runs on a fresh simulator instance (a backend chosen by an earlier request must not mask anything).
+DirRoutes == {"recv-pass", "recv-lookup", "miss", "pass", "hit", "fetch-restart", "error-restart", "deliver-restart"}
+DirectorCells == { [k |-> "director", dtype |-> t, weight |-> w, quorum |-> q, retries |-> r, route |-> "recv-pass", nreq |-> 2]
+                     : t \in DirTypes, w \in {"1", "-1", "500", "501", "1000", "1001", "MAX"},
+                       q \in {"-1", "0", "50", "100", "101"}, r \in {"-1", "0", "1", "MAX"} } \cup
+                 { [k |-> "director", dtype |-> t, weight |-> "1", quorum |-> "50", retries |-> "0", route |-> ro, nreq |-> 3]
+                     : t \in DirTypes \cup {"plain"} \cup {"random-of-director", "fallback-of-director", "hash-of-director", "client-of-director", "chash-of-director"},
+                       ro \in DirRoutes }
+
+(* ESI: `esi;` in vcl_fetch and an origin document made of tokens.  Requirement: the response arrives (value or reported *)
+(* error) whatever the document.  Mechanism (interpreter/esi.go executeESI, DRIFT only): repeatedly - find the next     *)
+(* include; copy what precedes it; a fetched include (INCOK: absolute URL of the stub) contributes FRAG and the NEXT    *)
+(* <esi:remove>..</esi:remove> block anywhere behind it is dropped together with everything before it; a failed include *)
+(* (INCFAIL: relative URL, nothing listens) contributes the CONTENT of the next remove block, or ends the processing     *)
+(* when there is none; an unclosed remove block is a reported error.  Comments and unterminated tags are plain text.   *)
+EsiTokens == {"T5", "T40", "INCOK", "INCFAIL", "RS", "FB", "RE", "COM", "HC", "UNT"}
+FirstOf(seq, S) == LET I == {i \in 1..Len(seq) : seq[i] \in S} IN IF I = {} THEN 0 ELSE CHOOSE i \in I : \A j \in I : i <= j
+From(seq, i) == SubSeq(seq, i, Len(seq))
+RECURSIVE Esi(_, _)
+Esi(body, out) ==
+  LET i == FirstOf(body, {"INCOK", "INCFAIL"}) IN
+  IF i = 0 THEN [out |-> out \o body, err |-> FALSE]
+  ELSE LET out1 == out \o SubSeq(body, 1, i - 1)
+           rest == From(body, i + 1)
+           rs   == FirstOf(rest, {"RS"})
+           after == From(rest, rs + 1)
+           re   == FirstOf(after, {"RE"}) IN
+       IF body[i] = "INCOK" THEN
+            (IF rs = 0 THEN Esi(rest, Append(out1, "FRAG"))
+             ELSE IF re = 0 THEN [out |-> <<>>, err |-> TRUE]
+             ELSE Esi(From(after, re + 1), Append(out1, "FRAG")))
+       ELSE (IF rs = 0 THEN [out |-> out1 \o rest, err |-> FALSE]
+             ELSE IF re = 0 THEN [out |-> <<>>, err |-> TRUE]
+             ELSE Esi(From(after, re + 1), out1 \o SubSeq(after, 1, re - 1)))
+EsiDocs(n) == UNION {[1..k -> EsiTokens] : k \in 0..n}
+EsiCells(first) == { [k |-> "esi", doc |-> d, out |-> Esi(d, <<>>).out, experr |-> Esi(d, <<>>).err]
+                       : d \in {x \in EsiDocs(EsiLen) : Len(x) = 0 \/ x[1] = first} }
+\* structured documents (longer than the exhaustive bound): head, up to three includes - fetched or failing, with or
+\* without a remove block behind them - and gaps whose lengths are shorter than, equal to and longer than the head
+Texts == {<<>>, <<"T5">>, <<"T40">>}
+Incs == {<<i>> : i \in {"INCOK", "INCFAIL"}} \cup {<<i, "RS", "FB", "RE">> : i \in {"INCOK", "INCFAIL"}}
+EsiStruct == { h \o a \o g \o b \o g2 \o c : h \in Texts, a \in Incs, g \in Texts, b \in Incs \cup {<<>>}, g2 \in Texts, c \in Incs \cup {<<>>} }
+EsiStructCells == { [k |-> "esi", doc |-> d, out |-> Esi(d, <<>>).out, experr |-> Esi(d, <<>>).err] : d \in EsiStruct }
+\* the replay asks for the actual response (to see the body): in that mode the simulator answers 200 also when
+\* executeESI reports a syntax error, so the outcome kind is predicted only for well-formed documents
+PredictEsi(c) == IF c.experr THEN "any" ELSE "value"
 
 (* every predefined variable that can be read in vcl_error / vcl_deliver / vcl_log (VariablesTable, generated from       *)
 (* __generator__/predefined.yml), read there after each unusual path of the request: the getters of these scopes look   *)
@@ -233,7 +282,8 @@ Keys == CASE Mode = "assign"  -> {<<vt, op>> : vt \in LeftTypes, op \in Ops}
           [] Mode = "vars"    -> {<<i, 0>> : i \in 1..Len(Variables)}
           [] Mode = "bigcalls" -> {<<sh, 0>> : sh \in {"ring", "ladder", "layers"}}
           [] Mode = "initerr" -> {<<0, 0>>}
-          [] Mode = "director" -> {<<t, 0>> : t \in {"random", "fallback", "hash", "client", "chash"}}
+          [] Mode = "director" -> {<<t, 0>> : t \in {"random", "fallback", "hash", "client", "chash", "other"}}
+          [] Mode = "esi"     -> {<<t, 0>> : t \in EsiTokens \cup {"struct"}}
 Fam(key) ==
   CASE Mode = "assign"  -> AssignFam(key[1], key[2])
     [] Mode \in {"builtin", "builtin-full"} -> BuiltinFam(key[1], Mode = "builtin-full")
@@ -244,9 +294,10 @@ Fam(key) ==
     [] Mode = "bigcalls" -> {c \in BigCallCells : c.shape = key[1]}
     [] Mode = "vars"    -> VarCells(key[1])
     [] Mode = "initerr" -> InitErrCells
-    [] Mode = "director" -> {c \in DirectorCells : c.dtype = key[1]}
+    [] Mode = "director" -> {c \in DirectorCells : IF key[1] = "other" THEN c.dtype \notin DirTypes ELSE c.dtype = key[1]}
+    [] Mode = "esi"     -> IF key[1] = "struct" THEN EsiStructCells ELSE EsiCells(key[1])
 Predict(c) == CASE c.k = "assign" -> PredictAssign(c) [] c.k = "builtin" -> "any" [] c.k = "calls" -> PredictCalls(c)
-                [] c.k = "include" -> PredictInclude(c) [] c.k = "request" -> "any" [] c.k = "jump" -> "any" [] c.k = "bigcalls" -> PredictBig(c) [] c.k = "vars" -> "any" [] c.k = "director" -> "any"
+                [] c.k = "include" -> PredictInclude(c) [] c.k = "request" -> "any" [] c.k = "jump" -> "any" [] c.k = "bigcalls" -> PredictBig(c) [] c.k = "vars" -> "any" [] c.k = "director" -> "any" [] c.k = "esi" -> PredictEsi(c)
                 [] c.k = "initerr" -> "error"
 
 Init == phase = "part" /\ item \in Keys
